@@ -109,6 +109,7 @@ func (dc *dataChunk) flush(w *DataStreamWriter, gc bool) (flushed uint32, err er
 		logger.Fatalf("write data fail, stop! err: %v", err)
 		return 0, err
 	}
+	verifPoint("chunk.flush.written", dc.chunkid)
 
 	dc.Lock()
 	tofree := dc.wbuf[:n]
